@@ -17,11 +17,11 @@ Import ListNotations.
 Open Scope Z_scope.
 
 (* ---- the synchronous suffix is a schedule of the protocol model ---- *)
-Theorem C06G_sync_round_reach : forall P pay s, preach P s -> preach P (sync_round P pay s).
+Theorem C06G_sync_round_reach : forall P pay fetch s, preach P s -> preach P (sync_round P pay fetch s).
 Proof. exact sync_round_reach. Qed.
 Print Assumptions C06G_sync_round_reach.
 
-Theorem C06G_sync_rounds_reach : forall P pay n s, preach P s -> preach P (sync_rounds P pay n s).
+Theorem C06G_sync_rounds_reach : forall P pay fetch n s, preach P s -> preach P (sync_rounds P pay fetch n s).
 Proof. exact sync_rounds_reach. Qed.
 Print Assumptions C06G_sync_rounds_reach.
 
@@ -63,22 +63,22 @@ Print Assumptions C06G_catch_up_or_stop.
 (* one round: if the soup contains a verifying new-view message of a committee member for view
    V (e.g. the one a node in view V sent when it entered V, or retransmitted at the end of the
    previous round), every honest node running at the end of the round is in a view >= V *)
-Theorem C06G_catch_up_round : forall P pay s i0 key j mv k,
+Theorem C06G_catch_up_round : forall P pay fetch s i0 key j mv k,
   is_member P key = true ->
   justification_view (E := unit) true j = Ok mv ->
   justification_verify (p_g P) (p_e P) (p_C P) j = Ok tt ->
   nth_error (g_soup s) i0 = Some {| m_key := key; m_sig_ok := true; m_msg := MNewView j |} ->
   honestb P k = true ->
-  n_alive (g_node (sync_round P pay s) k) = true ->
-  vnum mv <= r_view (n_live (g_node (sync_round P pay s) k)).
+  n_alive (g_node (sync_round P pay fetch s) k) = true ->
+  vnum mv <= r_view (n_live (g_node (sync_round P pay fetch s) k)).
 Proof. exact catch_up_round. Qed.
 Print Assumptions C06G_catch_up_round.
 
 (* lost messages are retransmitted: at the end of every round every running honest node whose
    view did not change during the round is in phase Timeout and its timeout vote for its view
    and (beyond view 0) a new-view message with its highest certificate are on the network *)
-Theorem C06G_round_retransmits : forall P pay s k, preach P s -> honestb P k = true ->
-  let s' := sync_round P pay s in
+Theorem C06G_round_retransmits : forall P pay fetch s k, preach P s -> honestb P k = true ->
+  let s' := sync_round P pay fetch s in
   n_alive (g_node s' k) = true ->
   r_view (n_live (g_node s' k)) = r_view (n_live (g_node (revive_all P s) k)) ->
   retransmitted P s' k.
@@ -146,18 +146,18 @@ Theorem C06G_retransmitted_announces : forall P s k,
 Proof. exact retransmitted_announces. Qed.
 Print Assumptions C06G_retransmitted_announces.
 
-Theorem C06G_announced_catch_up : forall P pay s V k,
-  announced P s V -> honestb P k = true -> n_alive (g_node (sync_round P pay s) k) = true ->
-  V <= r_view (n_live (g_node (sync_round P pay s) k)).
+Theorem C06G_announced_catch_up : forall P pay fetch s V k,
+  announced P s V -> honestb P k = true -> n_alive (g_node (sync_round P pay fetch s) k) = true ->
+  V <= r_view (n_live (g_node (sync_round P pay fetch s) k)).
 Proof. exact announced_catch_up. Qed.
 Print Assumptions C06G_announced_catch_up.
 
 (* (b), two rounds: every running honest node reaches the view of any honest node that ended the
    previous round running without having changed its view *)
-Theorem C06G_catch_up_two_rounds : forall P pay s h k,
+Theorem C06G_catch_up_two_rounds : forall P pay fetch s h k,
   preach P s -> honestb P h = true -> honestb P k = true ->
-  let s1 := sync_round P pay s in
-  let s2 := sync_round P pay s1 in
+  let s1 := sync_round P pay fetch s in
+  let s2 := sync_round P pay fetch s1 in
   n_alive (g_node s1 h) = true ->
   r_view (n_live (g_node s1 h)) = r_view (n_live (g_node (revive_all P s) h)) ->
   cert_headroom s1 h ->
@@ -171,11 +171,11 @@ Print Assumptions C06G_catch_up_two_rounds.
    during the first two rounds (the remaining obligation [C06_no_stop]) and the durable view
    numbers have headroom.  [up s k] = node k is running, [hview] = its view, [dview] = its durable
    view. *)
-Theorem C06G_catch_up_three_rounds : forall P, params_ok P -> forall pay s h k,
+Theorem C06G_catch_up_three_rounds : forall P, params_ok P -> forall pay fetch s h k,
   preach P s ->
-  let s1 := sync_round P pay s in
-  let s2 := sync_round P pay s1 in
-  let s3 := sync_round P pay s2 in
+  let s1 := sync_round P pay fetch s in
+  let s2 := sync_round P pay fetch s1 in
+  let s3 := sync_round P pay fetch s2 in
   (forall k', honestb P k' = true -> up s1 k' /\ up s2 k') ->
   (forall k', honestb P k' = true -> dview s k' + 4 < U64.U64) ->
   honestb P h = true -> honestb P k = true -> up s h -> up s3 k ->
@@ -206,20 +206,20 @@ Proof. exact tqc_view_bound. Qed.
 Print Assumptions C06G_tqc_view_bound.
 
 (* during a round nobody gets more than one view ahead of the durable views at its start *)
-Theorem C06G_round_view_bound : forall P, params_ok P -> forall (pay : Z -> Z) s0 t k B,
+Theorem C06G_round_view_bound : forall P, params_ok P -> forall s0 t k B,
   preach P s0 -> RInv P (g_soup s0) t -> (forall k', honestb P k' = true -> dview s0 k' <= B) ->
   honestb P k = true -> up t k ->
   hview t k <= B + 1 /\ 0 <= hview t k /\
   (forall j, get_justification (n_live (g_node t k)) = Ok j -> just_vnum j <= B).
-Proof. exact round_cert_bound. Qed.
+Proof. exact (fun P HP => round_cert_bound P HP (fun _ => 0) (fun _ _ => None)). Qed.
 Print Assumptions C06G_round_view_bound.
 
 (* at the end of a round a running honest node has announced its view, or it sits in phase
    Commit in a view it entered during the round through a proposal of the snapshot *)
-Theorem C06G_round_end : forall P, params_ok P -> forall pay s k B Bv,
+Theorem C06G_round_end : forall P, params_ok P -> forall pay fetch s k B Bv,
   preach P s -> honestb P k = true ->
   let s0 := revive_all P s in
-  let s1 := sync_round P pay s in
+  let s1 := sync_round P pay fetch s in
   (forall k', honestb P k' = true -> dview s0 k' <= B) -> B + 1 < U64.U64 ->
   prop_bound P (g_soup s0) Bv -> up s1 k ->
   ann_own P s1 k \/
@@ -230,9 +230,9 @@ Print Assumptions C06G_round_end.
 (* honest nodes do not stop (Panic / RBlocked / RInternal) during a synchronous suffix with
    arithmetic headroom: for every number of rounds R, at the end of each of the first R rounds
    every honest node is running *)
-Theorem C06G_no_stop : forall R P pay, params_ok P -> env_ok P pay -> forall s, preach P s ->
+Theorem C06G_no_stop : forall R P pay fetch, params_ok P -> env_ok P pay -> forall s, preach P s ->
   headroom P s (Z.of_nat R + 2) ->
-  forall r k, (1 <= r <= R)%nat -> honestb P k = true -> up (sync_rounds P pay r s) k.
+  forall r k, (1 <= r <= R)%nat -> honestb P k = true -> up (sync_rounds P pay fetch r s) k.
 Proof. exact no_stop_holds. Qed.
 Print Assumptions C06G_no_stop.
 
@@ -245,10 +245,10 @@ Print Assumptions C06G_headroom_unfold.
 
 (* (b), exact form: within three synchronous rounds every running honest node reaches the view
    any honest node was running in at the start *)
-Theorem C06G_catch_up : forall P pay, params_ok P -> env_ok P pay -> forall s, preach P s ->
+Theorem C06G_catch_up : forall P pay fetch, params_ok P -> env_ok P pay -> forall s, preach P s ->
   headroom P s 5 ->
-  forall h k, honestb P h = true -> honestb P k = true -> up s h -> up (sync_rounds P pay 3 s) k ->
-  hview s h <= hview (sync_rounds P pay 3 s) k.
+  forall h k, honestb P h = true -> honestb P k = true -> up s h -> up (sync_rounds P pay fetch 3 s) k ->
+  hview s h <= hview (sync_rounds P pay fetch 3 s) k.
 Proof. exact catch_up_holds. Qed.
 Print Assumptions C06G_catch_up.
 
@@ -279,11 +279,37 @@ Theorem C06G_aligned_view_commits_4_refuted : ~ C06_aligned_view_commits 4.
 Proof. exact aligned_view_commits_refuted. Qed.
 Print Assumptions C06G_aligned_view_commits_4_refuted.
 
+(* ---- the block-fetch oracle and the environment assumption H-FETCH ---- *)
+(* every statement above holds for EVERY oracle [fetch] (what it returns is checked before it is
+   used); the assumption below is needed only for the progress statements *)
+Theorem C06G_fetch_ok_unfold : forall P fetch s,
+  fetch_ok_at P fetch s <->
+  (forall k n h, honestb P k = true -> In (k, n, h) (g_qlog s) ->
+   exists q, fetch s n = Some q /\
+             cqc_verify (p_g P) (p_e P) (p_C P) q = Ok tt /\ cqc_knownb P (g_soup s) q = true /\
+             hnum (cprop (qmsg q)) = n /\ hpay (cprop (qmsg q)) = h).
+Proof. exact (fun P fetch s => iff_refl _). Qed.
+Print Assumptions C06G_fetch_ok_unfold.
+
+(* the general assumption (at every reachable state) implies the one used in the statements
+   (at the states in which the rounds of the run consult the oracle) *)
+Theorem C06G_fetch_ok_run : forall P pay fetch s R,
+  preach P s -> fetch_ok P fetch -> fetch_ok_run P pay fetch s R.
+Proof. exact fetch_ok_run_of. Qed.
+Print Assumptions C06G_fetch_ok_run.
+
+Theorem C06G_fetch_ok_run_unfold : forall P pay fetch s R,
+  fetch_ok_run P pay fetch s R <->
+  (forall r, (r < R)%nat ->
+     fetch_ok_at P fetch (propose_all P pay (deliver_all P (revive_all P (sync_rounds P pay fetch r s))))).
+Proof. exact (fun P pay fetch s R => iff_refl _). Qed.
+Print Assumptions C06G_fetch_ok_run_unfold.
+
 (* ---- non-vacuity ---- *)
 Example C06G_example_catch_up_hyps :
   let s := ginit ex_P in
-  let s1 := sync_round ex_P ex_pay s in
-  let s2 := sync_round ex_P ex_pay s1 in
+  let s1 := sync_round ex_P ex_pay (find_cert ex_P) s in
+  let s2 := sync_round ex_P ex_pay (find_cert ex_P) s1 in
   (forall k, honestb ex_P k = true -> up s1 k /\ up s2 k) /\
   (forall k, honestb ex_P k = true -> dview s k + 4 < U64.U64) /\
   (forall k, honestb ex_P k = true -> up s k).
@@ -297,10 +323,10 @@ Proof. exact ex_headroom. Qed.
 Print Assumptions C06G_example_headroom.
 
 Example C06G_example_rounds :
-  env_ok ex_P ex_pay /\ preach ex_P (sync_rounds ex_P ex_pay 5 (ginit ex_P)) /\
-  map (fun r => ex_heights [1; 2; 3; 4] (sync_rounds ex_P ex_pay r (ginit ex_P))) [1; 2; 3; 4; 5]%nat =
+  env_ok ex_P ex_pay /\ preach ex_P (sync_rounds ex_P ex_pay (find_cert ex_P) 5 (ginit ex_P)) /\
+  map (fun r => ex_heights [1; 2; 3; 4] (sync_rounds ex_P ex_pay (find_cert ex_P) r (ginit ex_P))) [1; 2; 3; 4; 5]%nat =
   [[0; 0; 0; 0]; [0; 0; 0; 0]; [1; 1; 1; 1]; [1; 1; 1; 1]; [2; 2; 2; 2]] /\
-  g_qlog (sync_rounds ex_P ex_pay 5 (ginit ex_P)) =
+  g_qlog (sync_rounds ex_P ex_pay (find_cert ex_P) 5 (ginit ex_P)) =
   [(1, 0, 100); (2, 0, 100); (3, 0, 100); (4, 0, 100); (1, 1, 101); (2, 1, 101); (3, 1, 101); (4, 1, 101)].
 Proof. exact (conj ex_env_ok (conj ex_rounds_reachable ex_rounds_obs)). Qed.
 Print Assumptions C06G_example_rounds.
@@ -309,16 +335,28 @@ Print Assumptions C06G_example_rounds.
    validator) two rounds make every validator queue the voted block *)
 Example C06G_example_recovery :
   exists s, preach ex_P s /\
-    g_qlog (sync_rounds ex_P ex_pay 2 s) = [(1, 0, 42); (2, 0, 42); (3, 0, 42); (4, 0, 42)] /\
-    preach ex_P (sync_rounds ex_P ex_pay 2 s).
+    g_qlog (sync_rounds ex_P ex_pay (find_cert ex_P) 2 s) = [(1, 0, 42); (2, 0, 42); (3, 0, 42); (4, 0, 42)] /\
+    preach ex_P (sync_rounds ex_P ex_pay (find_cert ex_P) 2 s).
 Proof. exact ex_recovery_reachable. Qed.
 Print Assumptions C06G_example_recovery.
+
+(* H-FETCH holds on the example runs for the oracle that scans the network and the honest
+   nodes' highest certificates *)
+Example C06G_example_fetch : fetch_ok_run ex_P ex_pay (find_cert ex_P) (ginit ex_P) 6.
+Proof. exact ex_fetch_run. Qed.
+Print Assumptions C06G_example_fetch.
+
+Example C06G_example_fetch_recovery :
+  exists s, preach ex_P s /\ fetch_ok_run ex_P ex_pay (find_cert ex_P) s 4 /\
+    g_qlog (sync_rounds ex_P ex_pay (find_cert ex_P) 2 s) = [(1, 0, 42); (2, 0, 42); (3, 0, 42); (4, 0, 42)].
+Proof. exact ex_fetch_recovery. Qed.
+Print Assumptions C06G_example_fetch_recovery.
 
 (* a silent Byzantine leader costs one view: 6 validators, validator 2 Byzantine *)
 Example C06G_example_byz_leader :
   params_ok ex_P6 /\
-  map (fun r => (map (fun k => r_view (n_live (g_node (sync_rounds ex_P6 ex_pay r (ginit ex_P6)) k))) [1; 3; 4; 5; 6],
-                 ex_heights [1; 3; 4; 5; 6] (sync_rounds ex_P6 ex_pay r (ginit ex_P6)))) [2; 3; 4; 5]%nat =
+  map (fun r => (map (fun k => r_view (n_live (g_node (sync_rounds ex_P6 ex_pay (find_cert ex_P6) r (ginit ex_P6)) k))) [1; 3; 4; 5; 6],
+                 ex_heights [1; 3; 4; 5; 6] (sync_rounds ex_P6 ex_pay (find_cert ex_P6) r (ginit ex_P6)))) [2; 3; 4; 5]%nat =
   [([1; 1; 1; 1; 1], [0; 0; 0; 0; 0]); ([2; 2; 2; 2; 2], [0; 0; 0; 0; 0]);
    ([2; 2; 2; 2; 2], [0; 0; 0; 0; 0]); ([3; 3; 3; 3; 3], [1; 1; 1; 1; 1])].
 Proof. exact (conj ex_P6_ok ex_byz_leader_obs). Qed.
